@@ -1,10 +1,10 @@
 package e4
 
 import (
-	"time"
 	"fmt"
 	"net/http"
 	"strings"
+	"time"
 )
 
 // Do issues one request against the handler (exported for engine E7): status and the
